@@ -28,9 +28,9 @@ use std::borrow::ToOwned;
 // The error type is only passed through (`?`): its real definition is kept outside verus!{} and declared opaque.
 //@allow external_type_specification Error: real definition outside verus!{}, opaque (values are only passed through by `?`)
 //@allow external_body Error: opaque type
-//@struct ERR ParseError derive=-
+//@struct ERR ParseError derive=Debug
 //@end
-//@enum ERR Error derive=-
+//@enum ERR Error derive=Debug
 //@end
 verus! {
 
@@ -59,8 +59,12 @@ pub assume_specification<'a, T: Copy> [Option::<&'a T>::copied] (o: Option<&'a T
 //@end
 //@struct POS SourceSpan derive=Clone,Copy,PartialEq,Eq
 //@end
+//@allow external_body SourceSpan's Debug::fmt: formatting code (write!), body dropped; present only so that the error types keep their derived Debug
+//@impl POS /^impl Debug for SourceSpan/
+//@  fn fmt xbody
+//@end
 
-//@trait INP Input methods=len,position_after
+//@trait INP Input methods=len,position_after,slice
 //@  raw
 //@  |     spec fn v_after(&self, p: Position) -> Position;
 //@  |     spec fn v_len(&self) -> usize;
@@ -68,6 +72,10 @@ pub assume_specification<'a, T: Copy> [Option::<&'a T>::copied] (o: Option<&'a T
 //@  |         ensures r == self.v_len(),
 //@  fn position_after ret=r
 //@  |         ensures r == self.v_after(position),
+//@  fn slice ret=r xbody
+//@  |         // what the implementations need: for str the start must lie inside the input (`s.slice(len..len)` panics for a non-empty s:
+//@  |         // bounded harness str_slice_no_panic assumes the same), for [T] the range must lie inside the slice
+//@  |         requires range.start <= range.end, range.end <= self.v_len(), range.start < self.v_len(),
 //@end
 
 //@trait PAR State methods=default_layout
